@@ -281,8 +281,8 @@ func ext۰reflect۰Value۰Len(fr *frame, args []value) value {
 		return len(v)
 	case array:
 		return len(v)
-	case chan value:
-		return cap(v)
+	case *vchan:
+		return v.cap
 	case []value:
 		return len(v)
 	case *omap:
@@ -343,8 +343,8 @@ func ext۰reflect۰Value۰Pointer(fr *frame, args []value) value {
 	switch v := rV2V(args[0]).(type) {
 	case *value:
 		return uintptr(unsafe.Pointer(v))
-	case chan value:
-		return reflect.ValueOf(v).Pointer()
+	case *vchan:
+		return uintptr(unsafe.Pointer(v))
 	case []value:
 		return reflect.ValueOf(v).Pointer()
 	case *omap:
@@ -451,7 +451,7 @@ func ext۰reflect۰Value۰IsNil(fr *frame, args []value) value {
 	switch x := rV2V(args[0]).(type) {
 	case *value:
 		return x == nil
-	case chan value:
+	case *vchan:
 		return x == nil
 	case *omap:
 		return x == nil
